@@ -2,6 +2,6 @@ SPECIFICATION Spec
 CONSTANTS
   MaxSet = 2
   Wide = FALSE
-  Roots = {"zvodd", "zvbox", "zvnode", "zvpair", "zvemb", "eventdemo", "snoopy", "weather", "nestouter"}
+  Roots = {"zvodd", "zvbox", "zvnode", "zvpair", "zvemb", "zvtower", "eventdemo", "snoopy", "weather", "nestouter"}
 INVARIANTS WellTyped NoLoss OneObject MatcherOk DropSeen UnknownKey WrongKind Deviations
 CHECK_DEADLOCK FALSE
